@@ -23,8 +23,11 @@ Proved for ALL directories satisfying `GoodFS`, ALL pools of well-typed builders
                                     complete content named (what a fetch would have produced);
 * `adv_present_persist`, `resolves_stable`  advertised entries are never removed (only ever replaced by
                                     the same complete content);
-* `recovery_live_index`, `recovery_live_pkg`  from any good directory (any crash state) a builder with
-                                    fresh temp names completes, reading complete, correctly named content;
+* `recovery_live_index`, `recovery_live_pkg`, `recovery_correct`  from any good directory (any crash
+                                    state) a builder with fresh temp names completes, and what it read through
+                                    advertised names is the complete, correctly named content
+                                    (`exec_runSched`: a builder alone is a schedule of the same scheduler;
+                                    `runPrefix_runSched`: so are the crash prefixes the driver executes);
 * `offline_safe`, `offline_partial_tmp_is_error`  offline: error or the complete content of an entry;
 * `coalescing_transparent`          flightCache / sync.Once tables are memo tables (C08's lemma).
 -/
@@ -388,6 +391,39 @@ theorem exec_runSched (i : Nat) (prog : Prog) :
         simp only [exec, hop]; exact h1'.trans (by rw [hfs])
       · show (runSched (List.replicate n i) (State.step ⟨fs, P⟩ i)).procs i = _
         simp only [exec, hop]; exact h2'.trans (by rw [hfs])
+
+/-- the crash prefixes the driver executes (`runPrefix`: builder `i` alone until marker `marks` and
+`extra` more steps) are schedules of the same scheduler: everything proved over `runSched` holds for
+the states the correspondence suite compares with the real directories -/
+theorem runPrefix_runSched (i : Nat) (fuel marks extra : Nat) :
+    ∀ (fs : FS) (P : Nat → Proc), ∃ n,
+      (runSched (List.replicate n i) ⟨fs, P⟩).fs = (runPrefix fuel marks extra fs (P i)).1 ∧
+      (runSched (List.replicate n i) ⟨fs, P⟩).procs i = (runPrefix fuel marks extra fs (P i)).2 := by
+  induction fuel generalizing marks extra with
+  | zero => intro fs P; exact ⟨0, rfl, rfl⟩
+  | succ fuel ih =>
+    intro fs P
+    have hself : (State.step ⟨fs, P⟩ i).procs i = (stepProc fs (P i)).2 := step_self ⟨fs, P⟩ i
+    have stepCase : ∀ marks' extra', ∃ n,
+        (runSched (List.replicate n i) ⟨fs, P⟩).fs =
+          (runPrefix fuel marks' extra' (stepProc fs (P i)).1 (stepProc fs (P i)).2).1 ∧
+        (runSched (List.replicate n i) ⟨fs, P⟩).procs i =
+          (runPrefix fuel marks' extra' (stepProc fs (P i)).1 (stepProc fs (P i)).2).2 := by
+      intro marks' extra'
+      obtain ⟨n, h1, h2⟩ := ih marks' extra' (State.step ⟨fs, P⟩ i).fs (State.step ⟨fs, P⟩ i).procs
+      refine ⟨n + 1, ?_, ?_⟩
+      · show (runSched (List.replicate n i) (State.step ⟨fs, P⟩ i)).fs = _
+        rw [hself] at h1; exact h1
+      · show (runSched (List.replicate n i) (State.step ⟨fs, P⟩ i)).procs i = _
+        rw [hself] at h2; exact h2
+    unfold runPrefix
+    split
+    · exact ⟨0, rfl, rfl⟩
+    · split
+      · exact stepCase marks extra
+      · split
+        · exact ⟨0, rfl, rfl⟩
+        · exact stepCase marks (extra - 1)
 
 /-- T `recovery_live_index`: from ANY good directory — in particular every state a killed build can
 leave behind (`adv_invariant`) — an online index fetch with a fresh temp name completes. -/
